@@ -143,7 +143,7 @@ def run():
     chk.transitions += len(recs)
     cases = [layout_case(r) for r in recs]
     nlay = len(cases)
-    for i in range(600 if QUICK else 10000):
+    for i in range(600 if QUICK else 50000):
         cases.append(roundtrip_case(rng))
     corrupted = []
     d = copy.deepcopy(cases[5])
